@@ -269,7 +269,7 @@ func VsymC15() {
 			}
 			var doc vr.J
 			good := c15Intact()
-			switch vr.Choice("corruption", 7) {
+			switch vr.Choice("corruption", 8) {
 			case 0:
 				doc = vr.JBad()
 			case 1:
@@ -282,6 +282,9 @@ func VsymC15() {
 				doc = vr.JObj("baseCRL", vr.JBytesVal([]byte("garbage")))
 			case 5:
 				doc = vr.JObj("baseCRL", vr.JBytesVal(good.der), "deltaCRL", vr.JBytesVal([]byte("garbage")))
+			case 7:
+				// a complete entry followed by other bytes (a second entry, the stale tail of a longer one)
+				doc = vr.JTrailing(vr.JObj("baseCRL", vr.JBytesVal(good.der)))
 			default:
 				doc = vr.JObj("baseCRL", vr.JBytesVal(good.der), "deltaCRL", vr.JBytesVal([]byte{}))
 			}
@@ -432,7 +435,7 @@ func c15Native(cache *FileCache, root string, urls []string, nOps int) {
 			}
 			good := c15MintCRL(1000+serial, time.Now().Add(240*time.Hour))
 			var doc vr.J
-			switch vr.Choice("corruption", 7) {
+			switch vr.Choice("corruption", 8) {
 			case 0:
 				doc = vr.JBad()
 			case 1:
@@ -445,6 +448,8 @@ func c15Native(cache *FileCache, root string, urls []string, nOps int) {
 				doc = vr.JObj("baseCRL", vr.JBytesVal([]byte("garbage")))
 			case 5:
 				doc = vr.JObj("baseCRL", vr.JBytesVal(good), "deltaCRL", vr.JBytesVal([]byte("garbage")))
+			case 7:
+				doc = vr.JTrailing(vr.JObj("baseCRL", vr.JBytesVal(good)))
 			default:
 				doc = vr.JObj("baseCRL", vr.JBytesVal(good), "deltaCRL", vr.JBytesVal([]byte{}))
 			}
